@@ -234,6 +234,34 @@ def run_sharded(cmd, lines, shards=16, timeout=3600, env=None):
     return [x for o in outs for x in o]
 
 
+SHA_RE = re.compile(r'\{sha12:([0-9a-f]*)\}')
+
+
+def post_model(prop, hbin, cases, model_lines):
+    """steps the model leaves to a real library: {sha12:<hex>} -> first 12 hex digits of SHA-256 (python hashlib);
+    props with "post": true additionally pipe the model lines through `<harness> post <cases-file>`"""
+    out = [SHA_RE.sub(lambda m: hashlib.sha256(bytes.fromhex(m.group(1))).hexdigest()[:12], l) for l in model_lines]
+    if prop.get('post') and hbin:
+        d = os.path.join(BUILD, 'run', prop['id'])
+        os.makedirs(d, exist_ok=True)
+        cf = os.path.join(d, 'post_cases.txt')
+        open(cf, 'w').write('\n'.join(cases) + '\n')
+        p = subprocess.run([hbin, 'post', cf], input='\n'.join(out) + '\n', stdout=subprocess.PIPE, stderr=subprocess.DEVNULL, text=True, env=ENV)
+        got = p.stdout.split('\n')
+        if got and got[-1] == '':
+            got.pop()
+        if len(got) == len(out):
+            out = got
+        else:
+            out = ['CRASH'] * len(out)
+    return out
+
+
+def run_model(prop, hbin, drv, cases, shards=16):
+    raw = run_sharded(['bash', '-c', 'ulimit -s unlimited 2>/dev/null; exec "$0"', drv], cases, shards=shards, timeout=prop.get('run_timeout', 3000))
+    return raw, post_model(prop, hbin, cases, raw)
+
+
 def coq_escape(s):
     return s.replace('"', '""')
 
@@ -318,7 +346,7 @@ def replay(pid, path):
     ok, out, hbin = build_harness(prop['harness'], prop.get('features'), prop.get('rustflags'))
     drv, _ = build_driver(prop['model_ml'])
     impl = run_sharded([hbin, 'run'], [case], shards=1) if ok else ['<harness build failed>']
-    model = run_sharded([drv], [case], shards=1) if drv else ['<no driver>']
+    model = run_model(prop, hbin, drv, [case], shards=1)[1] if drv else ['<no driver>']
     m, s, k = split3(model[0])
     print('case :', case[:2000])
     print('IMPL :', impl[0]); print('MODEL:', m); print('SPEC :', s); print('known class:', k)
@@ -408,14 +436,14 @@ def main(argv):
         env = dict(ENV); env.update(prop.get('run_env', {}))
         impl_lines = run_sharded([hbin, 'run'], cases, shards=prop.get('impl_shards', 1), timeout=prop.get('run_timeout', 3000), env=env)
         if drv:
-            model_lines = run_sharded(['bash', '-c', 'ulimit -s unlimited 2>/dev/null; exec "$0"', drv], cases, shards=16, timeout=prop.get('run_timeout', 3000))
+            raw_model_lines, model_lines = run_model(prop, hbin, drv, cases)
             corr_bad, spec_viol, direct, known_hits = evaluate(cases, impl_lines, model_lines)
             if corr_bad:
                 i = min(corr_bad, key=lambda j: len(cases[j]))
                 broken.append('correspondence MODEL vs IMPL: %d of %d cases differ; shortest: case=%r impl=%r model=%r'
                               % (len(corr_bad), len(cases), cases[i][:300], impl_lines[i][:300], model_lines[i][:300]))
             if props_vo and not corr_bad:
-                ok_s, sample_n, sout = coq_sample_check(prop, cases, model_lines)
+                ok_s, sample_n, sout = coq_sample_check(prop, cases, raw_model_lines)
                 if not ok_s:
                     broken.append('extraction cross-check: vm_compute inside Coq disagrees with the extracted driver: ' + sout[-400:])
             bad_model = [i for i, m in enumerate(model_lines) if m.startswith('BADCASE') or m.startswith('MODELCRASH') or m == 'CRASH']
@@ -434,7 +462,7 @@ def main(argv):
             if not kc:
                 continue
             il = run_sharded([hbin, 'run'], kc, shards=1)
-            ml = run_sharded([drv], kc, shards=1)
+            _, ml = run_model(prop, hbin, drv, kc, shards=1)
             still = 0
             for c, a, b in zip(kc, il, ml):
                 impl, _ = impl_main(a)
@@ -465,7 +493,7 @@ def main(argv):
                 rc, gen_out = sh([hbin, 'gen', str(seed * 1000 + extra), 'thorough'], timeout=1800)
                 cs = [l for l in gen_out.split('\n') if l]
                 il = run_sharded([hbin, 'run'], cs, shards=prop.get('impl_shards', 1))
-                ml = run_sharded(['bash', '-c', 'ulimit -s unlimited 2>/dev/null; exec "$0"', drv], cs, shards=16)
+                _, ml = run_model(prop, hbin, drv, cs)
                 cb, sv, dr, _ = evaluate(cs, il, ml)
                 if dr:
                     found = (cs[dr[0][0]], il[dr[0][0]], ml[dr[0][0]]); break
